@@ -163,7 +163,7 @@ def mc_one(name, kbd, keynames, io, wd):
     # one work directory per instance: the instances are checked concurrently
     iwd = os.path.join(wd, "mc_" + name)
     os.makedirs(iwd, exist_ok=True)
-    r = mc.check_instance(inst, iwd, workers=4, timeout=int(os.environ.get("C01_TLC_TIMEOUT", "1500")))
+    r = mc.check_instance(inst, iwd, workers=2, timeout=int(os.environ.get("C01_TLC_TIMEOUT", "1500")))
     return name, kbd, params, r
 
 
@@ -188,7 +188,7 @@ def mc_part(res, tier, wd, rng):
     build_harness()
     cfgdesc.keytable()
     fam = family(tier)
-    with ThreadPoolExecutor(max_workers=4) as ex:
+    with ThreadPoolExecutor(max_workers=3) as ex:       # 3 concurrent TLC runs x 2 workers
         results = list(ex.map(lambda f: mc_one(f[0], f[1], f[2], f[3], wd), fam))
     witness_jobs = []
     for name, kbd, params, r in results:
@@ -205,6 +205,9 @@ def mc_part(res, tier, wd, rng):
                   [quiesce(flow.hist_to_script(d["h"]), bound_of(params) + 30) for d in r.get("drift_samples", [])]
         if scripts:
             witness_jobs.append({"cfg": kbd, "params": params, "tag": "w:" + name, "scripts": scripts})
+        for k in ("tlc_out", "edges_file"):      # large scratch (one line per model transition)
+            if r.get(k) and os.path.exists(r[k]):
+                os.remove(r[k])
     return witness_jobs
 
 
@@ -231,9 +234,16 @@ RAW_BASE = 100000      # an arbitrary raw code n is rendered as key RAW_BASE + n
 NAME_BASE = 200000     # a key whose name the harness could not resolve
 
 
+CHUNK_BYTES = 60_000_000
+
+
 def prep_trace(src, dst, stats):
     """Pre-processor of recorded traces for P_C01: keys become numbers (see the module comment of P_C01.tla);
-    counts the soft observations (R1 redundant releases, continuous scroll / mouse-move events)."""
+    counts the soft observations (R1 redundant releases, continuous scroll / mouse-move events).  While a physical
+    key is down, a run of ticks with the same continuous-only output (scroll / mouse move) is one tick for the
+    monitor (phys # {}: quiet stays 0, the OS key state is unchanged) and is written once - this keeps traces of
+    held mouse keys small.  The result is split at script boundaries into chunks of bounded size (TLC loads a
+    whole trace file at once); returns the list of chunk files."""
     names = {}
 
     def conv(ev, down, bdown):
@@ -263,24 +273,59 @@ def prep_trace(src, dst, stats):
             stats["continuous_events"] += 1
         return ev
 
-    down, bdown = set(), set()
-    with open(src) as f, open(dst, "w") as g:
+    chunks = []
+    g = None
+    size = 0
+
+    def rotate():
+        nonlocal g, size
+        if g:
+            g.close()
+        path = "%s.%d" % (dst, len(chunks))
+        chunks.append(path)
+        g = open(path, "w")
+        size = 0
+
+    rotate()
+    down, bdown, phys = set(), set(), set()
+    last_cont = None
+    with open(src) as f:
         for line in f:
             r = json.loads(line)
-            if r["e"] == "reset":
-                down, bdown = set(), set()
+            e = r["e"]
+            if e == "reset":
+                down, bdown, phys = set(), set(), set()
+                last_cont = None
+                if size > CHUNK_BYTES:
+                    rotate()
+            elif e == "d":
+                phys.add(r["c"])
+            elif e == "u":
+                phys.discard(r["c"])
             if r.get("out"):
-                r["out"] = [conv(e, down, bdown) for e in r["out"]]
+                r["out"] = [conv(x, down, bdown) for x in r["out"]]
                 line = json.dumps(r) + "\n"
-            if r["e"] == "t":
+            if e == "t":
                 stats["ticks"] += r.get("n", 1)
+                if phys and r.get("out") and all(x[0] in ("sc", "mv") for x in r["out"]):
+                    key = (json.dumps(r["out"]), r["idle"], r["cb"])
+                    if key == last_cont:
+                        stats["continuous_ticks_merged"] += 1
+                        continue
+                    last_cont = key
+                else:
+                    last_cont = None
+            else:
+                last_cont = None
             g.write(line)
-    return dst
+            size += len(line)
+    g.close()
+    return chunks
 
 
 def new_stats():
-    return {"r1_redundant_releases": 0, "continuous_events": 0, "ticks": 0, "scripts": 0, "panics_in_code": 0,
-            "errors_from_code": 0}
+    return {"r1_redundant_releases": 0, "continuous_events": 0, "continuous_ticks_merged": 0, "ticks": 0, "scripts": 0,
+            "panics_in_code": 0, "errors_from_code": 0}
 
 
 def record(res, jobs, wd, name, stats):
@@ -291,9 +336,16 @@ def record(res, jobs, wd, name, stats):
     t0 = time.time()
     outs = run_jobs(jobs, wd, name, timeout=3000)
     raw = concat_traces(outs, os.path.join(wd, name + ".raw.ndjson"))
-    trace = prep_trace(raw, os.path.join(wd, name + ".trace.ndjson"), stats)
+    chunks = prep_trace(raw, os.path.join(wd, name + ".trace.ndjson"), stats)
+    os.remove(raw)
+    for rc, jf, of, pj, so in outs:
+        os.remove(of)
     t1 = time.time()
-    nlines, errs = validate_trace(MON, trace, wd, timeout=3000)
+    nlines, errs = 0, []
+    for ch in chunks:
+        n1, e1 = validate_trace(MON, ch, wd, timeout=3000)
+        nlines += n1
+        errs += e1
     log("[C01] %s: recorded %d scripts in %.1fs, %d trace lines validated by TLC in %.1fs" % (
         name, len(jobs), t1 - t0, nlines, time.time() - t1))
     res.traces_validated += len(jobs)
@@ -327,8 +379,8 @@ def diagnose(job, script, wd):
     of the finding signature:
       macro ring       at the end a FakeKey state (a key pressed by a macro) is left while no macro cursor is active,
                        and the 4-slot ring of macro cursors was full at some moment of the run
-      chords v2 held   at the end a state is left on a chords-v2 virtual coordinate (y >= 768): an activated chord
-                       was never released
+      chords v2 held   no flood, and at the end a state is left on a chords-v2 virtual coordinate (y >= 768) or the
+                       chords-v2 component never becomes idle: an activated chord was never released
       chords v2 flood  the configuration has defchordsv2 and the history has more than 16 events between two ticks
       os repeat        the stuck keys were pressed at the OS by an OS-repeat event while kanata had them lifted
       twin customs     two Custom-action states created at the same coordinate were removed by one release
@@ -373,9 +425,9 @@ def diagnose(job, script, wd):
     if fk and last["nseq"] == 0 and max_nseq >= 4:
         return "macro ring: %d key(s) pressed by a macro left with no active macro after the 4-slot ring was full" % len(fk)
     virt = [x for x in last["st"] if x[0] in ("nk", "lm", "cu", "rs") and x[2] == 0 and x[3] >= 768]
-    if virt and "(defchordsv2" in job["cfg"]:
-        return ("chords v2: an activated chord is still held on its virtual coordinate after all keys are up: %s"
-                % json.dumps(virt[:3]))
+    if "(defchordsv2" in job["cfg"] and run <= 16 and (virt or not last.get("chv2i", True)):
+        return ("chords v2: an activated chord is never released after all keys are up (states on virtual "
+                "coordinates: %s; chords v2 idle: %s)" % (json.dumps(virt[:3]), last.get("chv2i")))
     if "(defchordsv2" in job["cfg"] and run > 16:
         return "chords v2 flood: more than 16 events between two ticks (%d)" % run
     if down and down <= rep_pressed:
@@ -425,7 +477,7 @@ def replay(r, path, wd):
     res = flow.Result(PID, "replay", 0)
     st = new_stats()
     jobs, errs = record(res, [job], wd, "replay_c01", st)
-    for line in open(os.path.join(wd, "replay_c01.trace.ndjson")):
+    for line in open(os.path.join(wd, "replay_c01.trace.ndjson.0")):
         print(line.rstrip()[:300])
     for e in errs:
         print("REJECTED at line %s: %s" % (e["line"], e["err"]))
@@ -565,7 +617,8 @@ def burst_jobs(tier, rng):
                 s += [["d", C("s")], ["t", 3], ["u", C("s")], ["t", 1]]
             scripts.append(s)
         job("oneshot_ring_" + var, kbd, scripts)
-    # ---- 4 / 5 / 6 overlapping macros: the 4-slot ring of macro cursors
+    # ---- 4 / 5 / 6 overlapping macros: the 4-slot ring of macro cursors (the fifth used to evict the oldest cursor and
+    # leave its modifier pressed for ever: repaired in /repo by a8a26da, see known_findings.json "fixed")
     pre = ["S-", "C-", "A-", "M-", "RS-", "RC-"]
     kbd = ("(defsrc a b c d e f)\n(deflayer l0 %s)\n" %
            " ".join("(macro %s(%s 50 %s))" % (pre[i], "qwerty"[i], "uiopkl"[i]) for i in range(6)))
@@ -633,7 +686,7 @@ def extra_feature_jobs(tier, rng):
 
 
 def random_jobs(tier, rng, wd, stats):
-    ncfg = 90 if tier == "quick" else 3000
+    ncfg = 90 if tier == "quick" else 800
     texts, metas = [], []
     for i in range(ncfg):
         d = rng.choice([1, 2, 2, 3, 3])
@@ -645,7 +698,7 @@ def random_jobs(tier, rng, wd, stats):
                             "parser_panics": ast["parser_panics"] + ast["parser_aborts"]}
     names = cfgdesc.keytable()["names"]
     jobs, used = [], set()
-    budget = 700_000 if tier == "quick" else 6_000_000      # ticks per script at most (bound + history)
+    budget = 700_000 if tier == "quick" else 3_000_000      # ticks per script at most (bound + history)
     skipped = 0
     for i, (t, m, a) in enumerate(zip(texts, metas, accd)):
         if a is None:
@@ -661,7 +714,7 @@ def random_jobs(tier, rng, wd, stats):
         scripts = []
         dur = 0
         for _ in range(2 if tier == "quick" else 3):
-            n = rng.choice([10, 30, 80]) if tier == "quick" else rng.choice([20, 60, 200, 600, 2000])
+            n = rng.choice([10, 30, 80]) if tier == "quick" else rng.choice([20, 60, 200, 400])
             s = cfggen.gen_history(rng, codes, n, False, numbers=m["numbers"], floods=rng.random() < 0.3,
                                    long_gaps=rng.random() < 0.1, focus=src or codes, tail=0)
             scripts.append(s)
